@@ -34,7 +34,7 @@ NUMS = ['-32769', '-32768', '-1', '0', '1', '2', '3', '7', '8', '9', '15', '16',
         '127', '128', '255', '256', '257', '319', '320', '639', '640', '1000', '16383', '16384', '32767', '32768', '65535',
         '65536', '1E38', '-1E38', '1.5', '-.5', '1D300', '1E-39', '&HFFFF', '&H8000', '&O177777', '1#', '2!', '3%']
 STRS = ['""', '"A"', '"ab"', 'CHR$(0)', 'CHR$(255)', 'CHR$(13)', 'CHR$(26)', 'STRING$(255,"x")', 'STRING$(128,0)', '"A:B"', '"C:\\X"',
-        '"..\\..\\X"', '".. \\.. \\X"', '"*.*"', '"CON"', '"LPT1:"', '"KYBD:"', '"SCRN:"', '"CAS1:"', '"COM1:"', '"@:X"', '"CD:X"', '":X"', '"AB:"', '"@A:"', '"prn"', '"NUL"', '"aux"', '"X.BAS"', '"BAD1.BAS"',
+        '"..\\..\\X"', '".. \\.. \\X"', '"*.*"', '"CON"', '"LPT1:"', '"LPT2:"', '"lpt3:"', '"COM2:"', '"COM1:X"', '"KYBD:"', '"SCRN:"', '"CAS1:"', '"COM1:"', '"@:X"', '"CD:X"', '":X"', '"AB:"', '"@A:"', '"prn"', '"NUL"', '"aux"', '"X.BAS"', '"BAD1.BAS"',
         '"BAD2.BAS"', '"BAD3.BAS"', '"BAD4.BAS"', '"T.DAT"', '"C:"', '"C:\\"', '"\\"', '"."', '".."', '"A=B"', '"PATH"', '"A="',
         '"=B"', '"12:00:00"', '"24:00:00"', '"-1:00:00"', '"1:-1:1"', '"01-01-1980"', '"02-30-2000"', '"13-01-99"', '"1/1/2100"',
         '"ABCDEFGHIJKL.MNOP"', '"#.##"', '"!"', '"\\  \\"', '"&"', '"**$###,.##^^^^"', '"C4D8E"', '"T255L64N84"', '"X"+CHR$(1)+CHR$(2)',
@@ -219,6 +219,12 @@ def gen(rng, tier, prop):
             ops.append({'op': 'api', 'call': rng.choice(['evaluate', 'get', 'set', 'chars', 'pixels', 'convert']),
                         'arg': rng.choice(['1/0', 'A$+', 'FRE(0)', 'B$(99)', '"x"+', ')', 'PEEK(-1)', 'X', 'A$', 'G%(1)', 'Q#']),
                         'value': rng.choice([0, -1, 65536, 1e39, 'x' * 300, 'ab', [1, 2, 3], [[1, 2], [3, 4]], None, True])})
+        elif r < 0.935:
+            ops.append({'op': 'api', 'call': 'bind', 'arg': '', 'value': None, 'stmts': rng.sample([
+                'OPEN "R",1,"@N",32', 'FIELD 1,8 AS F$:LSET F$="x":PUT 1,2:GET 1,1', 'OPEN "@N" FOR OUTPUT AS 2', 'PRINT#2,"a"',
+                'OPEN "@N" FOR INPUT AS 3:LINE INPUT#3,A$', 'OPEN "@N" FOR APPEND AS 1', 'CLOSE', 'SAVE "@N"', 'LOAD "@N"',
+                'BSAVE "@N",0,10', 'BLOAD "@N"', 'KILL "@N"', 'NAME "@N" AS "Q"', 'FILES "@:"', 'LOCK 1:UNLOCK 1', 'X=LOF(1)+LOC(1)'],
+                rng.randint(2, 6))})
         elif r < 0.95:
             ops.append({'op': 'restart'})
         elif r < 0.965:
@@ -416,6 +422,11 @@ def run(case):
                                     # other than BASIC errors; a BASICError escaping the API is not an internal error
                                     if e.exc_type not in ('BASICError',):
                                         raise
+                        elif c == 'bind':
+                            # a host file bound to a BASIC name on the internal device, then used by statements
+                            nm = d._guard('bind_file', lambda: d.s.bind_file(os.path.join(root, 'c', 'BOUND.DAT'), create=True))
+                            for st in op.get('stmts', ()):
+                                r = d.exec(b(st.replace('@N', bytes(nm).decode('latin-1'))), poll_cap=2500)
                         elif c == 'chars':
                             d.chars()
                         elif c == 'pixels':
